@@ -1895,3 +1895,77 @@ Proof.
   exact H.
 Qed.
 
+
+(* ---------------------------------------------------------------- decidable side conditions *)
+Definition custom_eqb (a b : custom) : bool :=
+  match a, b with CNone, CNone | CTimestamp, CTimestamp | CDuration, CDuration | COpaque, COpaque => true | _, _ => false end.
+Definition is_repeated_label (l : label) : bool := match l with LRepeated => true | _ => false end.
+Definition no_oneof (f : fdesc) : bool := match foneof f with None => true | Some _ => false end.
+
+Definition supported_b (s : schema) (f : fdesc) : bool :=
+  match f_custom f with
+  | CNone =>
+      match fty f with
+      | TScalar _ | TEnum => negb (is_repeated_label (flabel f)) || no_oneof f
+      | TMsg _ => if is_repeated_label (flabel f) then no_oneof f else (no_oneof f || i_pointer (field_info s f))
+      | TMap _ _ => no_oneof f
+      | TMapOther => false
+      end
+  | CTimestamp | CDuration => no_oneof f || negb (i_repeated (field_info s f))
+  | COpaque => false
+  end.
+
+Lemma supported_b_spec s f : supported_b s f = true -> supported s f.
+Proof.
+  unfold supported_b, supported, no_oneof, is_repeated_label. intros H.
+  destruct (f_custom f) eqn:Ec; try discriminate H.
+  - left. split; [reflexivity|]. destruct (fty f) as [k| |idx|kk vk|] eqn:Et; try discriminate H.
+    + left. split; [exists k; left; first [exact Et|reflexivity]|]. apply orb_true_iff in H. destruct H as [H|H].
+      * left. destruct (flabel f); try discriminate; discriminate H.
+      * right. destruct (foneof f); [discriminate H|reflexivity].
+    + left. split; [exists KInt32; right; split; [first [exact Et|reflexivity]|reflexivity]|]. apply orb_true_iff in H. destruct H as [H|H].
+      * left. destruct (flabel f); try discriminate; discriminate H.
+      * right. destruct (foneof f); [discriminate H|reflexivity].
+    + right. left. exists idx. split; [first [exact Et|reflexivity]|]. destruct (flabel f) eqn:El.
+      * left. split; [discriminate|]. intros Ho. destruct (foneof f); [cbn in H; exact H|congruence].
+      * left. split; [discriminate|]. intros Ho. destruct (foneof f); [cbn in H; exact H|congruence].
+      * right. split; [reflexivity|]. destruct (foneof f); [discriminate H|reflexivity].
+    + right. right. exists kk, vk. split; [first [exact Et|reflexivity]|]. destruct (foneof f); [discriminate H|reflexivity].
+  - right. split; [left; reflexivity|]. intros Ho. destruct (foneof f); [cbn in H; apply negb_true_iff in H; exact H|congruence].
+  - right. split; [right; reflexivity|]. intros Ho. destruct (foneof f); [cbn in H; apply negb_true_iff in H; exact H|congruence].
+Qed.
+
+Fixpoint nodup_z (l : list Z) : bool :=
+  match l with [] => true | x :: t => negb (existsb (Z.eqb x) t) && nodup_z t end.
+Lemma nodup_z_spec l : nodup_z l = true -> NoDup l.
+Proof.
+  induction l as [|x t IH]; intros H; [constructor|]. cbn in H. apply andb_true_iff in H. destruct H as [H1 H2].
+  constructor; [|apply IH, H2]. intros Hin. apply negb_true_iff in H1.
+  assert (existsb (Z.eqb x) t = true) by (apply existsb_exists; exists x; split; [exact Hin|apply Z.eqb_refl]). congruence.
+Qed.
+
+Definition wf_msg_dec_b (m : mdesc) : bool :=
+  nodup_z (map fnum (mfields m)) && forallb (fun f => valid_number (fnum f) && negb (custom_eqb (f_custom f) COpaque)) (mfields m).
+Definition tdec_applies (s : schema) : bool :=
+  forallb (fun m => wf_msg_dec_b m && forallb (supported_b s) (mfields m)) s.
+
+Lemma tdec_applies_spec s : tdec_applies s = true -> wf_schema_dec s /\ supported_schema s.
+Proof.
+  unfold tdec_applies. intros H. rewrite forallb_forall in H. split.
+  - intros m Hm. specialize (H m Hm). apply andb_true_iff in H. destruct H as [H _]. unfold wf_msg_dec_b in H.
+    apply andb_true_iff in H. destruct H as [H1 H2]. split; [apply nodup_z_spec, H1|].
+    rewrite forallb_forall in H2. intros f Hf. specialize (H2 f Hf). apply andb_true_iff in H2. destruct H2 as [Hv Hc].
+    split; [exact Hv|]. intros E. rewrite E in Hc. discriminate Hc.
+  - intros m Hm f Hf. specialize (H m Hm). apply andb_true_iff in H. destruct H as [_ H]. rewrite forallb_forall in H.
+    apply supported_b_spec, H, Hf.
+Qed.
+
+(* T_dec with a computable applicability test *)
+Corollary T_dec_b s progs idx data t0 :
+  gen_all s = GOk progs -> tdec_applies s = true -> bytes_ok data ->
+  let r := pico_unmarshal progs idx data t0 in
+  match ref_decode (S (S (S (length data)))) s idx data t0 with
+  | Some t'' => fst r = None /\ snd r = t''
+  | None => fst r <> None
+  end.
+Proof. intros Hgen Ha Hb. destruct (tdec_applies_spec s Ha) as [Hwf Hsup]. apply T_dec; assumption. Qed.
